@@ -188,14 +188,31 @@ def twice (o : String) : String := s!"p:#{o}#{o}"
 def showFn (pre : ErrChain.Log Nat) (o1 o2 : String) : String := s!"p:{showLog pre}#{o1}#{o2}"
 
 /-- observation of a function-valued result: log at return, then two invocations with a fresh log each -/
-def showFnResult (r : ErrChain.FnResult Nat Err) : String :=
+def showFnResult (r : ErrChain.FnResult Nat Err) (suffix : String := "") : String :=
   match r.fn with
   | none => s!"p:{showLog r.log}#nil:{showErr r.err}"
   | some t =>
     -- what invocation k adds to the log: the difference between `logAfter k` and `logAfter (k-1)`
     let d1 := (t.logAfter r.log 1).drop r.log.length
     let d2 := (t.logAfter r.log 2).drop (t.logAfter r.log 1).length
-    showFn r.log (showResult { res := t.vals, err := r.err, log := d1 }) (showResult { res := t.vals, err := r.err, log := d2 })
+    showFn r.log (showResult { res := t.vals, err := r.err, log := d1 } ++ suffix)
+      (showResult { res := t.vals, err := r.err, log := d2 } ++ suffix)
+
+/-- `(sliceobs 1)`: the identity of the slice-typed (Z9) values is observed as well — one letter per slice value:
+`n` nil, `e` empty and not nil, `s` the very backing array that was handed in / returned by f. The helpers pass
+values on unchanged, so the model answers `s` for a non-empty slice, and `n` / `e` stay what they were.
+`(empty 1)`: the instrumented function makes its slice values empty (payload 0). -/
+def sliceObs (args : List SExp) : Bool := (findList args "sliceobs").isSome
+def emptyMode (args : List SExp) : Bool := (parseNats args "empty") == some [1]
+
+def sliceFlags (args : List SExp) (tys vals : List Nat) : String :=
+  if !sliceObs args then "" else
+  ";a:" ++ String.join ((tys.zip vals).filterMap fun (t, v) =>
+    if t != 9 then none else some (if emptyMode args then "e" else if v == 0 then "n" else "s"))
+
+/-- payloads of slice values in `(empty 1)` mode -/
+def emptied (args : List SExp) (tys vals : List Nat) : List Nat :=
+  if sliceObs args && emptyMode args then (tys.zip vals).map fun (t, v) => if t == 9 then 0 else v else vals
 
 def answer (wfOk : Bool) (model spec : String) : String :=
   if wfOk then s!"model={model} spec={spec}" else s!"model=nocompile spec={spec}"
@@ -335,7 +352,9 @@ def runPlumb (s : DState) (fl : Flags) (name : String) (args : List SExp) : Opti
   | "tuple" =>
     let ts ← parseTyIds args "ts"
     if vs.length != ts.length then none else
-    some (answer ok (twice (showOut (Plumb.runTuple ts vs))) (twice (showOut (Spec.tupleSpec vs))))
+    let vs := emptied args ts vs
+    let fl := sliceFlags args ts vs
+    some (answer ok (twice (showOut (Plumb.runTuple ts vs) ++ fl)) (twice (showOut (Spec.tupleSpec vs) ++ fl)))
   | "uncurry" =>
     let outer ← parseParams args "outer"
     let inner ← parseParams args "inner"
@@ -402,8 +421,14 @@ def runChain (s : DState) (fl : Flags) (name : String) (args : List SExp) : Opti
     let f := results s 1 outs
     if outs.length ≥ 2 then
       -- the result is a function value: observed when fmap returns and on two invocations
-      let fs : ErrChain.Stage Nat Err := { run := fun a => (f a, none) }
-      some (answer ok (showFnResult (ErrChain.fmapEFn g fs)) (showFnResult (Spec.fmapEFnSpec g fs)))
+      let fs : ErrChain.Stage Nat Err := { run := fun a => (emptied args outs (f a), none) }
+      let flm := match (ErrChain.fmapEFn g fs).fn with
+        | some t => sliceFlags args outs t.vals
+        | none => ""
+      let fls := match (Spec.fmapEFnSpec g fs).fn with
+        | some t => sliceFlags args outs t.vals
+        | none => ""
+      some (answer ok (showFnResult (ErrChain.fmapEFn g fs) flm) (showFnResult (Spec.fmapEFnSpec g fs) fls))
     else
     -- one result: its zero; none: nothing
     let zeros := match outs with
